@@ -21,6 +21,7 @@ type expOpts struct {
 
 type expCase struct {
 	built
+	Spec      *gspec   `json:"spec,omitempty"` // generator-level form (enough to rebuild Docs)
 	Opts      expOpts  `json:"opts"`
 	FailLoads []string `json:"fail_loads,omitempty"` // URLs the loader refuses
 	Choices   []int    `json:"choices,omitempty"`    // explorer choices (map orders) of the failing execution
@@ -35,6 +36,17 @@ type expObs struct {
 	OutErr string
 	Loads  []string
 	Steps  int
+}
+
+// hydrate rebuilds the documents of a compactly stored case.
+func (c *expCase) hydrate() {
+	if len(c.Docs) == 0 && c.Spec != nil {
+		b := c.Spec.build()
+		c.Docs, c.Root = b.Docs, b.Root
+		if c.Feat == nil {
+			c.Feat = b.Feat
+		}
+	}
 }
 
 func (c *expCase) universe() Universe {
@@ -114,7 +126,7 @@ func stepBudget(f graphFacts) int {
 	if !verifrt.Instrumented {
 		return 0
 	}
-	return 3000*f.Unfolding + 20000
+	return 1000*f.Unfolding + 5000
 }
 
 func errClass(e string) string {
